@@ -210,7 +210,11 @@ def build(seed: int, family: str | None = None, allow_restart: bool = True) -> S
     sc = Scenario()
     sc.rs = rs
     fam = family or ["canon", "canon", "gc", "gc", "gc", "npt", "hmc"][rs.randint(7)]
-    sc.meta = {"family": fam, "scenario_seed": int(seed)}
+    # "<family>_noreset": a two-leg run whose user edits the atoms between the legs WITHOUT declaring the remembered energy
+    # void (the reference energy is then stale by the user's doing: such runs are used for C03 / C12 only, never for C04)
+    noreset = fam.endswith("_noreset")
+    fam = fam.replace("_noreset", "")
+    sc.meta = {"family": fam + ("_noreset" if noreset else ""), "scenario_seed": int(seed)}
     sim_seed = int(rs.randint(1, 2**31 - 1))
     if fam == "canon":
         molecular = rs.rand() < 0.4
@@ -390,7 +394,24 @@ def build(seed: int, family: str | None = None, allow_restart: bool = True) -> S
     calc = mc.atoms.calc
     sc.fresh = lambda c=calc: fresh_like(c)
     sc.meta["restarted"] = False
-    if rs.rand() < 0.25 and allow_restart:
+    sc.edit, sc.steps2 = None, 0
+    if fam in ("canon", "hmc", "npt") and (rs.rand() < 0.3 or noreset):
+        # a run in two legs: between them the user moves the system by hand (rigid shift; in the cell-changing ensembles
+        # also a rescaling of the cell together with the atoms)
+        shift = rs.uniform(0.2, 0.6, 3)
+        scale = float(rs.choice([0.97, 1.04])) if fam == "npt" else None
+
+        def edit(mc_, shift=shift, scale=scale):
+            a_ = mc_.atoms
+            if scale is not None:
+                a_.set_cell(a_.cell.array * scale, scale_atoms=True)
+            a_.positions = a_.positions + shift
+
+        sc.edit = edit
+        sc.steps2 = int(rs.randint(2, 6))
+        sc.meta["edited_between_runs"] = True
+        sc.reset_energy = not noreset
+    if rs.rand() < 0.25 and allow_restart and not noreset:
         try:
             restart_prologue(sc, warm=int(rs.randint(0, 3)))
         except Exception:  # noqa: BLE001
